@@ -36,11 +36,12 @@
    <str as Debug> needs, for non-ASCII characters, the truth table "printed verbatim or as \u{..}" (Unicode tables of the
    Rust std the crate is built with): as for Model/Pretty.v it is passed with the case (`Pretty.penv`, field pe_print;
    pe_syn is not used here).  All other output is independent of E. *)
-From TSG Require Export Model.Ast Model.ErrChain.
+From TSG Require Export Model.Ast Model.ErrChain Model.VarDisplay.
 From TSG Require Model.Pretty.
 
-Definition dpenv := Pretty.penv.
-Definition dpenv_of (print : list (N * bool)) : dpenv := {| Pretty.pe_syn := []; Pretty.pe_print := print |}.
+(* dpenv, dpenv_of, s_in s_forw s_comma s_false s_true s_null, display_expr and display_variable live in Model/VarDisplay.v
+   (they depend on the AST only, and the parser model needs display_variable for the text of `node` statements). *)
+
 
 (* ------------------------------------------------------------------------------------ the fixed pieces *)
 Definition k_let : str := [108;101;116;32].                     (* "let " *)
@@ -56,44 +57,13 @@ Definition k_scan : str := [115;99;97;110;32].                  (* "scan " *)
 Definition s_eq : str := [32;61;32].                            (* " = " *)
 Definition s_at : str := [32;97;116;32].                        (* " at " *)
 Definition s_arrow : str := [32;45;62;32].                      (* " -> " *)
-Definition s_in : str := [32;105;110;32].                       (* " in " *)
-Definition s_forw : str := [32;102;111;114;32].                 (* " for " *)
 Definition s_block : str := [32;123;32;46;46;46;32;125].        (* " { ... }" *)
 Definition s_elif : str := [32;101;108;105;102;32].             (* " elif " *)
 Definition s_else : str := [32;101;108;115;101].                (* " else" *)
 Definition s_some : str := [115;111;109;101;32].                (* "some " *)
 Definition s_none : str := [110;111;110;101;32].                (* "none " *)
-Definition s_comma : str := [44;32].                            (* ", " *)
-Definition s_false : str := [102;97;108;115;101].               (* "false" *)
-Definition s_true : str := [116;114;117;101].                   (* "true" *)
-Definition s_null : str := [35;110;117;108;108].                (* "#null" *)
 Definition s_attribute : str := [97;116;116;114;105;98;117;116;101;32].    (* "attribute " *)
 Definition s_darrow : str := [32;61;62].                        (* " =>" *)
-
-(* ------------------------------------------------------------------------------------ expressions *)
-Fixpoint display_expr (E : dpenv) (e : expr) : str :=
-  match e with
-  | EFalse => s_false
-  | ENull => s_null
-  | ETrue => s_true
-  | EInt n => dec n
-  | EStr s => Pretty.debug_str E s
-  | EList es => [91] ++ Pretty.join s_comma (map (display_expr E) es) ++ [93]
-  | ESet es => [123] ++ Pretty.join s_comma (map (display_expr E) es) ++ [125]
-  | EListComp el v _ value _ => [91;32] ++ display_expr E el ++ s_forw ++ v ++ s_in ++ display_expr E value ++ [32;93]
-  | ESetComp el v _ value _ => [123;32] ++ display_expr E el ++ s_forw ++ v ++ s_in ++ display_expr E value ++ [32;125]
-  | ECapture name _ _ _ _ => [64] ++ name
-  | EUnscoped name _ => name
-  | EScoped scope name _ => display_expr E scope ++ [46] ++ name
-  | ECall f args => [40] ++ f ++ flat_map (fun a => 32 :: display_expr E a) args ++ [41]
-  | ERegexCap i => [36] ++ dec i
-  end.
-
-Definition display_variable (E : dpenv) (v : variable) : str :=
-  match v with
-  | VarU name _ => name
-  | VarS scope name _ => display_expr E scope ++ [46] ++ name
-  end.
 
 Definition display_attr (E : dpenv) (a : attr) : str :=
   match a with Attr name value => name ++ s_eq ++ display_expr E value end.
